@@ -53,6 +53,14 @@ def prepare_prior(state, out, rng, previous):
         shutil.copyfile(previous, out)
         os.chmod(out, 0o755)
         return
+    if state in ("ff-longer", "aa-exact"):
+        # Every byte of the new output must be written by this link: a prior file of 0xFF (longer
+        # than the output) or 0xAA (exactly as long) makes any byte that wild leaves alone visible.
+        n = os.path.getsize(previous) if previous and os.path.exists(previous) else 20000
+        with open(out, "wb") as f:
+            f.write(b"\xff" * (n + 4099) if state == "ff-longer" else b"\xaa" * n)
+        os.chmod(out, 0o755)
+        return
     size = {"shorter": rng.randint(1, 300), "longer": rng.randint(200_000, 400_000),
             "random": rng.randint(3000, 30000), "previous": 5000}[state]
     with open(out, "wb") as f:
@@ -60,16 +68,20 @@ def prepare_prior(state, out, rng, previous):
     os.chmod(out, 0o755)
 
 
-CLASS_CYCLE = ["dyn", "graph", "str", "dyn", "script", "graph", "big"]
+CLASS_CYCLE = ["dyn", "graph", "str", "tls", "dyn", "script", "graph", "big"]
 
 
 def make_class(rng, workdir, tier, index=0):
     """Returns (class_type, base_argv (without output/knobs), description, notes)."""
     ctype = CLASS_CYCLE[index % len(CLASS_CYCLE)]
-    if ctype == "graph":
-        g = gen_graph.generate(rng, rng.choice(["small", "medium"]))
+    if ctype in ("graph", "tls"):
+        # "tls": every TLS access model (GD, IE, TLSDESC) x visibility, mostly in shared objects,
+        # where the GOT slots get dynamic relocations instead of values.
+        g = gen_graph.generate(rng, rng.choice(["small", "medium"]), force_tls=(ctype == "tls"))
         objs = gen_graph.emit(g, workdir)
         kind = rng.choice(["exe", "shared", "pie"])
+        if ctype == "tls":
+            kind = ["shared", "shared", "pie", "exe"][(index // len(CLASS_CYCLE)) % 4]
         argv = gen_graph.link_args(g, objs, "OUT", kind=kind, gc=rng.random() < 0.8)[2:]
         if kind != "exe":
             argv.append(f"--hash-style={rng.choice(['gnu', 'sysv', 'both'])}")
@@ -161,6 +173,14 @@ def run_job(job):
             mmap = vr.choice([None, None, "--no-mmap-output-file"])
             fork = vr.random() < 0.25
             prior_bytes_seed = vr.getrandbits(32)
+            # Forced variants (applied after the draws so that the draw sequence, and with it
+            # every replay, is unchanged): a clean reference, then update-in-place over dirty files.
+            if v == 0:
+                prior, mode, mmap = "absent", None, None
+            elif v == 1:
+                prior, mode, mmap = "ff-longer", "--update-in-place", None
+            elif v == 2:
+                prior, mode = "aa-exact", "--update-in-place"
             if only is not None and v not in only:
                 continue
             out = os.path.join(workdir, "out")
